@@ -11,7 +11,7 @@ META = {
                  "add = find-or-append, the reverse index borrows only from the table's own reference-stable store, clear "
                  "clears both, operator[] is bounds-checked; R11.4 reinterpret_cast wrappers are layout-compatible; R11.5 "
                  "CdnsBlock::clear resets every table and item container (same set as write/get_item_count/full); R11.6 "
-                 "stored indices come from the add_* of the table they index. keeps-absent-distinct: operator== / hash_value do not read optional key members through value_or(). R11.3 find-index-complete: the size conditions under which find() relies on the reverse index imply the size conditions under which appended (and rebuilt) elements are entered into it, tabulated for 1..40 elements with every other atom free. R11.6 (= R02.6) also: an insertion function returns the table's answer on every path; an index remembered under a validity flag or an engaged optional is accepted only if every function that clears, assigns or swaps the table lowers it or takes the whole memo from the same source object.",
+                 "stored indices come from the add_* of the table they index. keeps-absent-distinct: operator== / hash_value do not read optional key members through value_or(). R11.3 find-index-complete: the size conditions under which find() relies on the reverse index imply the size conditions under which appended (and rebuilt) elements are entered into it, tabulated for 1..40 elements with every other atom free. R11.6 (= R02.6) also: an insertion function returns the table's answer on every path; an index remembered under a validity flag or an engaged optional is accepted only if every function that clears, assigns or swaps the table lowers it or takes the whole memo from the same source object. R11.7: a loop over a table's own items that refills its reverse index (what the copy operations use) stores a local counter that starts at 0 and is incremented once per item after the store.",
     "explanation": "Record/type facts and structural rules over block_table.h, hash.h and the key types: necessary conditions "
                    "for 'equal values get equal indices, distinct values distinct indices'. Behaviour of std::unordered_map "
                    "and hash quality are not decided.",
@@ -479,3 +479,4 @@ def check(run):
     check_reinterpret(run, "R11.4")
     check_clear(run, "R11.5")
     tables.check_index_provenance(run, "R11.6")
+    tables.check_reindex_loops(run, "R11.7")
